@@ -499,6 +499,25 @@ theorem wrapping_counter_unlocks :
       = some ⟨false, true⟩ := by
   decide +kernel
 
+/-! ### structure of the counting code (what the sequential model cannot see) -/
+
+/-- **A failure is counted before its penalty delay starts, under the lock, and the gate guards the
+only PIN comparison** — read off the AST of the live source on every run.
+`_fail_pin_auth` is straight-line code whose assignments to `_failed_pin_auth.value` all lie inside
+`with ….get_lock():` and all precede every `time.sleep` call; in `pin_auth` the single comparison with
+the entered PIN sits in the `else` of `elif self._failed_pin_auth.value > 10`, its wrong branch (and
+the stale-cookie branch) calls `_fail_pin_auth()`, its right branch resets the counter.
+The model (`pinAuth`, `lockout_permanent`) describes attempts one after the other. This obligation
+rules out the schedule in which overlapping requests (threaded development server) are each parked
+in their 0.5–5 s delay *before* being counted: then any number of concurrent wrong guesses would be
+compared against the PIN and the right PIN would still be accepted after more than ten rejections,
+although every sequential history behaves as the model says. -/
+theorem fail_counted_before_delay :
+    failHasUpdate = true ∧ failCountedInsideLock = true ∧ failCountedBeforeSleep = true ∧
+    compareGuardedByGate = true ∧ gateThreshold = 10 ∧ wrongBranchCallsFail = true ∧
+    staleBranchCallsFail = true ∧ rightBranchResets = true := by
+  decide
+
 /-! ### PIN changes at run time -/
 
 /-- **eval needs a cookie for the current PIN**: in a session an eval attempt (everything else
